@@ -5,13 +5,15 @@ stdin : JSON {"jobs": [job, ...]}
          "mode": "random", "seed": int, "n": int, "ptimeout": float}
       | {..., "mode": "replay", "sched": [[thread, go], ...]}
       | {..., "mode": "enumerate", "max_leaves": int}
-  scripts: one per PROCESS.  Logical threads: 2p = main thread of process p, 2p+1 = its feeder
-  (Queue._feed, started by the first put).  Call ids: 0 q_put(obj=a2, block=a1, timeout=a0)
+  scripts: one per PAIR q: logical thread 2q = a main thread, 2q+1 = the feeder thread (Queue._feed) that main
+  thread's call of Queue._start_thread starts.  "owners": [process of pair q, ...] (default: pair q is process q,
+  one main thread per process); the main threads of one process share ONE queue object (buffer, _notempty,
+  _thread), the queue objects of different processes come from __setstate__ (shared semaphores and pipe).  Call ids: 0 q_put(obj=a2, block=a1, timeout=a0)
   1 q_get  3 jq_put  4 jq_task_done  5 jq_join  6 sq_put  7 sq_get   (2 = the feeder itself)
   A message a2 >= 1000 of q_put / jq_put is put as an object that cannot be pickled.  A timed get
   reads the logical clock (`deadline - monotonic()`): the schedule decides whether its deadline has passed.
 stdout: last line JSON {"records": [...], "truncated": [...]}
-  record: kind maxsize scripts sched events callidx results fins vals pipe bufs pend end
+  record: kind maxsize scripts owners sched events callidx results fins vals pipe bufs pend end
 """
 import json
 import os
@@ -42,7 +44,8 @@ class FakeConn:
 
 
 class World:
-    def __init__(self, kind, maxsize, nprocs):
+    def __init__(self, kind, maxsize, nprocs, owners=None):
+        owners = list(range(nprocs)) if owners is None else owners
         self.sched = s = Scheduler()
         ctx = FakeCtx()
         self.kind = kind
@@ -52,6 +55,7 @@ class World:
             q = bq.SimpleQueue(ctx=ctx)
             q._reader = q._writer = FakeConn()
             self.queues = [q] * nprocs
+            self.procq = {}
         else:
             cls = bq.Queue if kind == 'queue' else bq.JoinableQueue
             s.sid_plan = [1, 2, 0, 8, 9] + ([3, 4, 5, 6, 7] if kind == 'joinable' else [])
@@ -60,10 +64,10 @@ class World:
             q0._writer.close()
             q0._reader = q0._writer = FakeConn()
             self._bind_pipe(q0)
-            self.queues.append(q0)
+            self.procq = {0: q0}
             base = (q0._ignore_epipe, q0._maxsize, q0._reader, q0._writer,
                     q0._rlock, q0._wlock, q0._sem, q0._opid)
-            for p in range(1, nprocs):
+            for p in sorted(set(owners) - {0}):
                 # what unpickling the queue in another process does: fresh buffer / _notempty / thread
                 s.sid_plan = [8 + 2 * p, 9 + 2 * p]
                 qp = cls.__new__(cls)
@@ -72,7 +76,8 @@ class World:
                 else:
                     qp.__setstate__(base)
                 self._bind_pipe(qp)
-                self.queues.append(qp)
+                self.procq[p] = qp
+            self.queues = [self.procq[owners[q]] for q in range(nprocs)]
         assert not s.sid_plan
 
     @staticmethod
@@ -120,7 +125,9 @@ class World:
 
 def run_once(job, chooser):
     scripts = job['scripts']
-    w = World(job['kind'], job['maxsize'], len(scripts))
+    owners = job.get('owners') or list(range(len(scripts)))
+    assert len(owners) == len(scripts) and all(0 <= p < len(scripts) for p in owners)
+    w = World(job['kind'], job['maxsize'], len(scripts), owners)
     s = w.sched
     for p, sc in enumerate(scripts):
         s.spawn(w.body(p, [tuple(c) for c in sc]))
@@ -138,9 +145,9 @@ def run_once(job, chooser):
     dflt = [job['maxsize'], 1, 1, 0, 1, 0, 0, 0] + [1, 0] * len(scripts)   # semaphores this kind of queue does not create
     bufs = []
     for p in range(len(scripts)):
-        q = w.queues[p]
-        bufs.append([int(x) for x in getattr(q, '_buffer', [])] if job['kind'] != 'simple' else [])
-    rec = dict(kind=job['kind'], maxsize=job['maxsize'], scripts=scripts,
+        q = w.procq.get(p)
+        bufs.append([int(x) for x in getattr(q, '_buffer', [])] if q is not None else [])
+    rec = dict(kind=job['kind'], maxsize=job['maxsize'], scripts=scripts, owners=owners,
                sched=[[i, bool(g)] for i, g in s.schedule],
                events=[list(e) for e in s.events], callidx=list(s.callidx),
                results=[list(t.results) for t in s.threads],
